@@ -313,7 +313,18 @@ def single_edits(schema, rng, per_rule_cap=6):
                 add("value-at-extreme", "%sValue-max@%s" % (attr, p), False, "type", ti, lambda t_, s, a=attr, v=hi: setattr(t_, a, str(v)))
                 add("value-at-extreme", "%sValue-min@%s" % (attr, p), False, "type", ti, lambda t_, s, a=attr, v=lo: setattr(t_, a, str(v)))
             add("value-not-representable", "minValue-non-numeric@" + p, True, "type", ti, lambda t_, s: setattr(t_, "min", "abc"))
+            # forms the branch coverage of the validator showed unexercised: empty text, surrounding blanks
+            add("value-not-representable", "maxValue-empty@" + p, True, "type", ti, lambda t_, s: setattr(t_, "max", ""))
+            add("value-not-representable", "minValue-leading-blank@" + p, True, "type", ti, lambda t_, s: setattr(t_, "min", " 1"))
+            add("value-not-representable", "minValue-trailing-blank@" + p, True, "type", ti, lambda t_, s: setattr(t_, "min", "1 "))
         else:
+            add("value-not-representable", "minValue-empty@" + p, True, "type", ti, lambda t_, s: setattr(t_, "min", ""))
+            add("value-not-representable", "maxValue-leading-blank@" + p, True, "type", ti, lambda t_, s: setattr(t_, "max", " 1.5"))
+            add("value-not-representable", "maxValue-signed-NaN@" + p, True, "type", ti, lambda t_, s: setattr(t_, "max", "-NaN"))
+            add("value-not-representable", "maxValue-plus-NaN@" + p, True, "type", ti, lambda t_, s: setattr(t_, "max", "+NaN"))
+            add("value-not-representable", "minValue-HEX-float@" + p, True, "type", ti, lambda t_, s: setattr(t_, "min", "0X1P3"))
+            add("value-at-extreme", "maxValue-NaN@" + p, False, "type", ti, lambda t_, s: setattr(t_, "max", "NaN"))
+            add("value-at-extreme", "minValue-minus-INF@" + p, False, "type", ti, lambda t_, s: setattr(t_, "min", "-INF"))
             add("value-not-representable", "maxValue-non-numeric@" + p, True, "type", ti, lambda t_, s: setattr(t_, "max", "1.5x"))
             add("value-not-representable", "minValue-hex-float@" + p, True, "type", ti, lambda t_, s: setattr(t_, "min", "0x1p3"))
             big = "1e39" if p == "float" else "1e309"
